@@ -381,6 +381,75 @@ def check_r18c(repo, rep, uni, local, shared):
     return n
 
 
+PROCESS_SETTERS = (
+    'sys.setrecursionlimit', 'sys.set_int_max_str_digits',
+    'sys.setswitchinterval', 'sys.settrace', 'sys.setprofile',
+    'sys.set_asyncgen_hooks', 'os.chdir', 'os.putenv', 'os.unsetenv',
+    'os.umask', 'locale.setlocale', 'signal.signal',
+    'socket.setdefaulttimeout', 'random.seed', 'decimal.setcontext',
+    'gc.disable', 'gc.enable', 'gc.set_threshold', 'threading.settrace',
+    'threading.setprofile', 'warnings.simplefilter',
+    'warnings.filterwarnings', 'time.tzset')
+PROCESS_OBJECTS = ('os.environ', 'sys.path', 'sys.modules', 'sys.argv',
+                   'sys.flags')
+
+
+def process_global_writes(repo, mod, fnode, locals_=()):
+    out = []
+    for c in ast.walk(fnode):
+        if isinstance(c, ast.Call):
+            d = repo.resolve(mod, c.func, locals_)
+            if d in PROCESS_SETTERS:
+                out.append((c, d))
+    for w in effects.writes_in(fnode):
+        tgt = w.target
+        base = tgt
+        while isinstance(base, (ast.Subscript, ast.Attribute)):
+            d = repo.resolve(mod, base, locals_) if isinstance(
+                base, ast.Attribute) else None
+            if d in PROCESS_OBJECTS:
+                out.append((w.node, d))
+                break
+            base = base.value
+    return out
+
+
+def check_no_process_global_setters(repo, rep, rule):
+    """Interpreter-wide settings (integer digit limit, recursion limit,
+    environment, locale ...) are one per process: code that sets one, even
+    "temporarily" with a restore in `finally`, is a write to state shared by
+    every thread and every engine -- two overlapping uses restore each
+    other's value."""
+    n = 0
+    for mod in repo.modules.values():
+        if mod.name.startswith('yaql.cli'):
+            continue
+        for fi in mod.functions.values():
+            if fi.parent_func is not None:
+                continue
+            n += 1
+            for node, what in process_global_writes(
+                    repo, mod, fi.node, model.scope_locals(fi)):
+                rep.ob(rule, '%s/%s' % (fi.key, what), False,
+                       '`%s` changes %s, a setting of the whole process: '
+                       'concurrent parses / evaluations (and the host '
+                       'application) see it change under them, and two '
+                       'overlapping save-and-restore pairs leave the wrong '
+                       'value behind' % (model.norm(node)[:70], what),
+                       loc=mod.loc(node), construct=model.norm(node)[:120])
+    from sa.rules import c09
+    fm = c09.load_fixture(repo, 'c18_globals_fixture.py')
+    flagged = {f.name for f in fm.functions.values()
+               if f.parent_func is None and process_global_writes(
+                   repo, fm, f.node, model.scope_locals(f))}
+    rep.ob(rule, 'fixtures/c18_globals_fixture.py/positive-control',
+           flagged == {'bad_unlimited_digits', 'bad_environment'},
+           'positive control: expected the two bad_* functions flagged and '
+           'ok_reads_only silent; flagged %s' % sorted(flagged))
+    rep.ob(rule, 'library', True, '%d functions scanned' % n,
+           nontrivial=True)
+
+
 def check_r18e(repo, rep, uni):
     """Every evaluate() issued by the library / host API itself runs in a
     private child of the shared context."""
@@ -495,6 +564,10 @@ def run(repo, rep):
     n = check_r18a(repo, rep, uni, local)
     check_r18c(repo, rep, uni, local, shared)
     check_r18e(repo, rep, uni)
+    rep.rule('R18g', 'NO-PROCESS-GLOBAL-SETTERS: no library code sets an '
+             'interpreter-wide setting (sys.set*, os.environ, locale, '
+             'signal ...)')
+    check_no_process_global_setters(repo, rep, 'R18g')
     # data that two evaluations can both reach (a document, values stored
     # in a shared context) is shared state too: no in-place write on
     # argument data (decided by C09's rule)
